@@ -47,15 +47,16 @@ type Profile struct {
 }
 
 type genState struct {
-	r      *Rand
-	sp     *Spec
-	avail  []int // types that may be used as inputs (have a supplier or are designated arguments)
-	plainS bool
-	plainI bool
-	ctxT   int
-	names  []string
-	prof   Profile
-	risky  bool
+	r       *Rand
+	sp      *Spec
+	avail   []int // types that may be used as inputs (have a supplier or are designated arguments)
+	plainS  bool
+	plainI  bool
+	ctxT    int
+	names   []string
+	prof    Profile
+	risky   bool
+	argOdds int // 1 in argOdds inputs is a fresh injector parameter
 }
 
 func (g *genState) newType(k Kind) int {
@@ -126,7 +127,7 @@ func (g *genState) pickInputs(k int, recency int) []int {
 	for tries := 0; len(in) < k && tries < 20; tries++ {
 		var t int
 		switch {
-		case len(g.avail) == 0 || g.r.Chance(1, 10):
+		case len(g.avail) == 0 || g.r.Chance(1, g.argOdds):
 			// a type nobody supplies: becomes an injector parameter
 			t = g.newType(g.freshValueKind())
 			g.avail = append(g.avail, t)
@@ -171,7 +172,7 @@ func Gen(r *Rand, pkg string, prof Profile) *Spec {
 }
 
 func genOnce(r *Rand, pkg string, prof Profile) *Spec {
-	g := &genState{r: r, sp: &Spec{Pkg: pkg}, ctxT: -1, prof: prof}
+	g := &genState{r: r, sp: &Spec{Pkg: pkg}, ctxT: -1, prof: prof, argOdds: 10}
 	g.risky = r.Intn(1000) < prof.RiskyShapes
 	if prof.AdversarialNames {
 		g.names = append([]string{}, adversarial...)
@@ -188,10 +189,17 @@ func genOnce(r *Rand, pkg string, prof Profile) *Spec {
 	if r.Chance(1, 3) {
 		nProv = 1 + r.Intn(4) // many small programs
 	}
-	shapes := []string{"random", "chain", "fan", "diamond", "syncroot", "joinsink"}
+	shapes := []string{"random", "chain", "fan", "diamond", "syncroot", "joinsink", "layered", "layered", "layered"}
 	shape := shapes[r.Intn(len(shapes))]
 	g.sp.Shape = shape
 	recency := 0
+	if shape == "layered" {
+		// a service graph: one or two roots, every other provider consumes results of earlier providers
+		// (hardly any injector parameters), so that values fan out to several consumers in several pools
+		nProv = 5 + r.Intn(8)
+		g.argOdds = 40
+		recency = 3
+	}
 	switch shape {
 	case "chain":
 		recency = 8
@@ -217,6 +225,12 @@ func genOnce(r *Rand, pkg string, prof Profile) *Spec {
 		}
 		if r.Chance(1, 6) {
 			k = 0
+		}
+		if shape == "layered" {
+			k = 1 + r.Intn(3)
+			if i < 1+r.Intn(2) {
+				k = 0
+			}
 		}
 		p := Provider{Name: fmt.Sprintf("P%d", len(g.sp.Providers)), Form: "func"}
 		p.In = g.pickInputs(k, recency)
@@ -291,6 +305,10 @@ func genOnce(r *Rand, pkg string, prof Profile) *Spec {
 		if r.Chance(1, 8) {
 			vt := g.newType([]Kind{KStr, KInt, KPtr, KVal}[r.Intn(4)])
 			v := Provider{Name: fmt.Sprintf("V%d", len(g.sp.Providers)), Form: "value", Out: []int{vt}}
+			if r.Chance(1, 3) {
+				// the constant lives in a package-level variable named like the local the generator would pick
+				v.VarRef = lowerFirst(g.sp.Types[vt].Name)
+			}
 			g.sp.Providers = append(g.sp.Providers, v)
 			g.avail = append(g.avail, vt)
 			if g.sp.Types[vt].Kind == KPtr && r.Chance(1, 3) {
@@ -579,6 +597,9 @@ func (g *genState) variant(base []Use, k int) []Use {
 	uses := make([]Use, len(base))
 	copy(uses, base)
 	mode := r.Intn(9)
+	if g.sp.Shape == "layered" && r.Chance(1, 2) {
+		mode = 5 + r.Intn(4) // mostly asynchronous service graphs, often with synchronous roots / sinks
+	}
 	if g.prof.WantAsync && mode == 0 {
 		mode = 2
 	}
